@@ -136,7 +136,19 @@ func play(data []byte, exp [][]expectEv, ns []int, pat string, withMeta bool, se
 		return
 	}
 	var err error
-	c := engine.Catch(func() { err = tr.MultiPlay(outs) })
+	viaPlay := len(mp) == 1 && mp[-1] == "A" && len(ns)%2 == 1
+	c := engine.Catch(func() {
+		if viaPlay {
+			// Play(out) is documented as MultiPlay with the port as default; it opens the port
+			ports["A"].open = false
+			err = tr.Play(ports["A"])
+		} else {
+			err = tr.MultiPlay(outs)
+		}
+	})
+	if viaPlay && !ports["A"].open && !c.Panicked {
+		report("play:port-not-opened", ns, pat, withMeta, sel, mp, "Play did not open the out port")
+	}
 	if c.Panicked {
 		report(c.Sig+":MultiPlay", ns, pat, withMeta, sel, mp, "MultiPlay panicked: "+c.Value)
 		return
